@@ -56,7 +56,7 @@ def ng_job(e, p):
         seq.append(mode)
         if k == 0 or seq[k - 1] != mode:
             e.call('nogoods::NoGoodStore::set_dup_elem', [rs, Enum(mode, [], 'DuplicateElemination')])
-        a, v = symng(e, 'ng%d' % k, V)
+        a, v = symng(e, 'ng%d' % k, V, nonempty=not p.get('allow_empty'))
         if k == 0 and p.get('first') is not None:
             # symmetry reduction for the longest histories: the first nogood is fixed up to renaming of variables and polarity
             e.assume(a == p['first'][0]); e.assume(v == p['first'][1])
@@ -76,6 +76,10 @@ def ng_job(e, p):
     for bucket in st.f[e.field('NoGoodStore', 'store')].items:
         for ng in bucket.items: stored.append((bvv(ng.f[0]), bvv(ng.f[1])))
     excl_store = [z3.Or(*[matches_total(a, v, t) for a, v in stored]) if stored else z3.BoolVal(False) for t in total]
+    if 'unsatisfiable' in e.structs['NoGoodStore']:
+        # the store records the empty nogood (which excludes everything) in a flag of its own
+        flag = st.f[e.field('NoGoodStore', 'unsatisfiable')]
+        if e.branch(flag) if not isinstance(flag, bool) else flag: excl_store = [z3.BoolVal(True) for t in total]
     if canary == 'forget': excl_store = [z3.Not(x) for x in excl_store]
     diff = z3.Or(*[x != y for x, y in zip(excl_store, excl_added)])
     m = sat_model(e, diff)
@@ -211,9 +215,14 @@ def spec(ctx, tier, seed):
         # the store treats variables and polarities alike - an assumption of this job only, stated in the evidence)
         for first in ((0b001, 0b001), (0b011, 0b011), (0b111, 0b111)):
             jobs.append(Job('V3-K4-Subsume-first%s' % bin(first[0])[2:], mod, 'ng_job', {'V': 3, 'K': 4, 'modes': ['Subsume'] * 4, 'first': list(first)}, stop_after_violations=60))
+    # the empty nogood (no literal: it matches, hence excludes, every interpretation) is a legal argument of add_ng and is what the search
+    # learns on an ADF without statements
+    for m in MODES:
+        jobs.append(Job('V2-K2-%s-with-empty' % m, mod, 'ng_job', {'V': 2, 'K': 2, 'modes': [m, m], 'allow_empty': True}, stop_after_violations=60))
+    jobs.append(Job('V0-K1-empty', mod, 'ng_job', {'V': 0, 'K': 1, 'modes': ['Equiv'], 'allow_empty': True}, stop_after_violations=60))
     jobs.append(Job('canary', mod, 'ng_job', {'V': 2, 'K': 1, 'modes': ['Equiv'], 'canary': 'forget'}, stop_after_violations=1, canary=True))
     return {'jobs': jobs, 'level': 'model_checking', 'allowed_status': ('ok', 'panic'),
-            'assumptions': ASSUMPTIONS + ['roaring::RoaringBitmap = 32-bit bit-vector (insert/remove/contains/len/min/is_empty/and/or/xor)', 'added nogoods are non-empty (add_ng ignores an empty one; the search never produces one)'],
+            'assumptions': ASSUMPTIONS + ['roaring::RoaringBitmap = 32-bit bit-vector (insert/remove/contains/len/min/is_empty/and/or/xor)', 'the long sequences use non-empty nogoods; the empty nogood is covered by dedicated jobs (V=2, K=2 per mode, and V=0)'],
             'bounds': 'V <= %d statements, sequences of K <= %d nogoods, each a pair of symbolic bit-vectors (any nesting, duplication, subsumption), duplicate-elimination mode per add '
                       'None/Equiv/Subsume incl. every switch pattern at V=3, a symbolic partial interpretation; oracle over all 2^V total assignments' % (max(p[0] for p in plans), max(p[1] for p in plans)),
             'outside': 'more than %d statements / %d nogoods (thorough: four adds at V=3 under Subsume only with the first nogood fixed up to variable renaming and polarity); completeness of deduction is not claimed by the property' % (max(p[0] for p in plans), max(p[1] for p in plans))}
